@@ -14,6 +14,7 @@ K_2  == <<50>>
 K_10 == <<49, 48>>
 K_95 == <<57, 46, 53>>      \* "9.5"
 K_m3 == <<45, 51>>          \* "-3"
+K_m5 == <<45, 53>>          \* "-5": same length as "-3" -- text order is the reverse of numeric order
 
 L(form, key, indent, trail, sfx) == [form |-> form, key |-> key, indent |-> indent, trail |-> trail, sfx |-> sfx]
 
@@ -23,7 +24,7 @@ LexLines == { L("k", K_a, 0, 0, 0), L("k", K_b, 0, 0, 0), L("k", K_b, 2, 1, 0), 
               L("id", K_a, 0, 0, 0), L("id", K_b, 1, 0, 1), L("kv", K_a, 0, 0, 0), L("kv", K_b, 0, 0, 2),
               L("blank", <<>>, 0, 0, 0), L("ws", <<>>, 2, 0, 0) }
 NumLines == { L("k", K_2, 0, 0, 0), L("k", K_10, 0, 0, 0), L("k", K_10, 2, 1, 0), L("k", K_95, 0, 0, 0),
-              L("k", K_m3, 0, 0, 0),
+              L("k", K_m3, 0, 0, 0), L("k", K_m5, 0, 0, 0),
               L("id", K_2, 0, 0, 0), L("id", K_10, 0, 0, 1), L("id", K_m3, 1, 0, 0),
               L("kv", K_a, 0, 0, 0), L("k", K_a, 0, 0, 0),
               L("blank", <<>>, 0, 0, 0) }
